@@ -242,6 +242,172 @@ func runC08(w *World, r *Report) {
 	// is written by the holder: after the native Unlock/RUnlock another goroutine owns the mutex.
 	r.Rule("R-C08-4", "shadow lock state is written by the holder only: in callMutexMethod / callRWMutexMethod no write of the lock-state bookkeeping is reachable after the native Unlock / RUnlock of the same call", 3)
 
+	r.Rule("R-C08-10", "the launching context's current symbol table is not read from the new goroutine: goByteCode hands the go target a scope it found itself (derived from its own c.symbols), and in the target every read of the parent context's symbols field lies behind 'no scope was handed over' (the nil edge of its symbol-table parameter)", 2)
+
+	if fn := w.ssaFunc(bp, "goByteCode"); fn == nil {
+		r.Anchor("R-C08-10", "bytecode.goByteCode")
+	} else {
+		var goInstr *ssa.Go
+
+		allInstrs(fn, func(in ssa.Instruction) {
+			if g, ok := in.(*ssa.Go); ok {
+				goInstr = g
+			}
+		})
+
+		isSymbolsLoad := func(v ssa.Value) bool {
+			u, ok := v.(*ssa.UnOp)
+			if !ok {
+				return false
+			}
+
+			fa, ok := u.X.(*ssa.FieldAddr)
+
+			return ok && fieldName(fa.X.Type(), fa.Field) == "symbols"
+		}
+
+		key := "bytecode.goByteCode|scope found at the go statement"
+
+		switch {
+		case goInstr == nil:
+			r.Anchor("R-C08-10", "the go statement in bytecode.goByteCode")
+		default:
+			handed := -1
+
+			for ai, a := range goInstr.Call.Args {
+				if n := namedOf(a.Type()); n != nil && n.Obj().Name() == "SymbolTable" && derivesFrom(a, isSymbolsLoad, func(string) bool { return true }) {
+					handed = ai
+				}
+			}
+
+			target := goInstr.Call.StaticCallee()
+
+			if handed < 0 || target == nil {
+				r.Violate("R-C08-10", key, w.pos(goInstr.Pos()), "the new goroutine is not handed a scope found by the launching goroutine: it has to read the launching context's current symbol table itself, while that context goes on calling functions and opening scopes (a data race, and the scope found is whichever one the launcher is executing by then)")
+			} else {
+				r.Discharge("R-C08-10", key, w.pos(goInstr.Pos()), "scope derived from the launcher's own c.symbols and passed to "+fnKey(target))
+
+				// in the target: reads of the parent's symbols only on the nil-scope path
+				key2 := fnKey(target) + "|parent symbols read only without a handed-over scope"
+				bad := ""
+
+				if handed < len(target.Params) {
+					scopeParam := target.Params[handed]
+					cuts := cutEdges(target, func(f Fact) bool { return f.Kind == "nil" && f.V == ssa.Value(scopeParam) })
+
+					allInstrs(target, func(in ssa.Instruction) {
+						u, ok := in.(*ssa.UnOp)
+						if !ok || !isSymbolsLoad(u) {
+							return
+						}
+
+						fa := u.X.(*ssa.FieldAddr)
+						if _, isParam := fa.X.(*ssa.Parameter); !isParam {
+							return
+						}
+
+						if len(cuts) == 0 || instrReachableAfterCut(target, in, cuts) {
+							bad = w.pos(in.Pos())
+						}
+					})
+				}
+
+				if bad != "" {
+					r.Violate("R-C08-10", key2, bad, "the new goroutine reads the launching context's symbols field although a scope was handed over")
+				} else {
+					r.Discharge("R-C08-10", key2, w.pos(target.Pos()), "")
+				}
+			}
+		}
+	}
+
+	r.Rule("R-C08-9", "a go statement hands the goroutine its own copy of struct arguments: in goByteCode every value stored into the argument list given to GoRoutine is the result of copyStructForValueSemantics (a struct is a value; bound later, inside the goroutine, it would be copied only after the caller went on to change it)", 1)
+
+	if fn := w.ssaFunc(bp, "goByteCode"); fn == nil {
+		r.Anchor("R-C08-9", "bytecode.goByteCode")
+	} else {
+		nArgs := 0
+
+		allInstrs(fn, func(in ssa.Instruction) {
+			st, ok := in.(*ssa.Store)
+			if !ok {
+				return
+			}
+
+			ia, ok := st.Addr.(*ssa.IndexAddr)
+			if !ok {
+				return
+			}
+
+			if _, isMake := ia.X.(*ssa.MakeSlice); !isMake {
+				return
+			}
+
+			nArgs++
+
+			key := "bytecode.goByteCode|argument copied at the go statement"
+			if nArgs > 1 {
+				key += "#" + sprintInt(nArgs)
+			}
+
+			if c, isCall := st.Val.(*ssa.Call); isCall && callID(c.Common()) == "internal/language/bytecode.copyStructForValueSemantics" {
+				r.Discharge("R-C08-9", key, w.pos(st.Pos()), "through copyStructForValueSemantics")
+			} else {
+				r.Violate("R-C08-9", key, w.pos(st.Pos()), "the argument popped for a go statement is handed to the goroutine as it is: a struct argument is still the caller's struct until the goroutine binds its parameters, so `p := P{n: 1}; go worker(p); p.n = 2` gives the worker n == 2 where Go gives 1 (and the copy then races with the caller's write)")
+			}
+		})
+
+		if nArgs == 0 {
+			r.Anchor("R-C08-9", "the store into the argument list in bytecode.goByteCode")
+		}
+	}
+
+	r.Rule("R-C08-8", "the shadow record of a program's mutex is created atomically: in package bytecode no sync.Map.Store puts a freshly allocated record into a lock-state map (LoadOrStore is the only creator), so two goroutines making their first call on one mutex cannot end up with different records", 1)
+
+	{
+		nCreate := 0
+
+		for _, fn := range w.srcFuncs(bp) {
+			allInstrs(fn, func(in ssa.Instruction) {
+				c, ok := in.(*ssa.Call)
+				if !ok || len(c.Call.Args) < 3 {
+					return
+				}
+
+				id := callID(c.Common())
+				if id != "sync.Map.Store" && id != "sync.Map.LoadOrStore" && id != "sync.Map.Swap" {
+					return
+				}
+
+				g, isG := c.Call.Args[0].(*ssa.Global)
+				if !isG || !strings.HasSuffix(g.Name(), "LockState") {
+					return
+				}
+
+				if _, fresh := stripValue(c.Call.Args[2]).(*ssa.Alloc); !fresh {
+					return // a plain value (the Mutex wrapper's bool), written by the holder
+				}
+
+				nCreate++
+
+				key := fnKey(fn) + "|lock-state record created"
+				if nCreate > 1 {
+					key += "#" + sprintInt(nCreate)
+				}
+
+				if id == "sync.Map.LoadOrStore" {
+					r.Discharge("R-C08-8", key, w.pos(in.Pos()), "LoadOrStore")
+				} else {
+					r.Violate("R-C08-8", key, w.pos(in.Pos()), "a new lock-state record is put into the map with "+strings.TrimPrefix(id, "sync.Map.")+": two goroutines making their first call on the same mutex at the same moment each install their own record, the later one wins, and the other goroutine's lock is recorded where nobody looks — its Unlock is refused and every other goroutine waits for ever")
+				}
+			})
+		}
+
+		if nCreate == 0 {
+			r.Anchor("R-C08-8", "the creation of a lock-state record in package bytecode")
+		}
+	}
+
 	r.Rule("R-C08-7", "atomic test-and-clear: each native Unlock / RUnlock of a program's mutex in callMutexMethod / callRWMutexMethod is reachable only through the success edge of a CompareAndSwap on the shadow lock state, so two goroutines releasing a mutex that is held once cannot both reach the native release (a fatal runtime error)", 3)
 
 	for _, name := range []string{"callMutexMethod", "callRWMutexMethod"} {
